@@ -141,7 +141,7 @@ def bindPO (self : Val) (f : Func Val) (c : PCall Val) : Option (Binding Val) :=
 /-- `none` = the `safe` failure `(None, None)` (a partial that always fails) -/
 def kSignature (f : Func Val) : Option (List Val × List (Val × Val)) :=
   let argNames := names f.pos
-  let fixed := argNames.zip f.pArgs                       -- dict(zip(arg_names[:len(p_args)], p_args))
+  let fixed := (if f.bound then argNames.drop 1 else argNames).zip f.pArgs   -- (a bound method's instance is not among the parameters the partial fills)                       -- dict(zip(arg_names[:len(p_args)], p_args))
   if fixed.any (fun p => has f.pKwds p.1) then none else
   let defaults := update (update (defaultsOf f.pos) (defaultsOf f.kwonly)) f.pKwds
   let explicit := argNames.filter (fun n => !(has fixed n))
